@@ -263,7 +263,9 @@ func (s *Store) end(r *Request, err error) error {
 	r.Post = deepCopyMap(s.objs[r.Key])
 	r.Changed = !reflect.DeepEqual(r.Pre, r.Post)
 	if err != nil {
-		r.Err = errClass(err)
+		if r.Fault == "" {
+			r.Err = errClass(err)
+		}
 		return err
 	}
 	if s.Faults[r.Idx] == "lost" {
